@@ -93,6 +93,27 @@ impl G {
     }
 }
 
+/// iterator over new members with a chosen (always legal) size_hint: `extend` / `from_iter` reserve from it
+struct HintIter<T> {
+    it: std::vec::IntoIter<T>,
+    mode: u8,
+}
+impl<T> Iterator for HintIter<T> {
+    type Item = T;
+    fn next(&mut self) -> Option<T> {
+        self.it.next()
+    }
+    fn size_hint(&self) -> (usize, Option<usize>) {
+        let n = self.it.len();
+        match self.mode {
+            0 => (n, Some(n)),
+            1 => (0, Some(n)),
+            2 => (0, None),
+            _ => (n / 2, Some(n + 3)),
+        }
+    }
+}
+
 struct Hist {
     streams: bool,
     keyed: bool,
@@ -207,17 +228,62 @@ pub fn run(prop: &str, thorough: bool, case_seed: u64, sub: u64) -> ExecOut {
         w.root = Some(0);
         w.phase = Phase::Constructing;
     });
+    let mut h = Hist { streams, keyed, live: BTreeMap::new(), unknown: vec![], all_keys: vec![], ever_used: BTreeSet::new(), slot_ids: BTreeMap::new(), prop: prop_s, next_idx: 0 };
+    // constructor: with_capacity(n) | new() | from_iter(initial members, any legal size_hint)
+    let ctor = w(|w| [0u8, 0, 1, 2][w.below(4)]);
+    let mut inserts_left = 2 + w(|w| w.below(if thorough { 10 } else { 8 }));
+    let mut ctor_desc = format!("with_capacity({cap0})");
+    let mut init_f: Vec<BF> = vec![];
+    let mut init_s: Vec<BS> = vec![];
+    let mut init_mode = 0u8;
+    if ctor == 2 {
+        let k = w(|w| w.below(4));
+        init_mode = w(|w| w.below(4) as u8);
+        let mut ids = vec![];
+        for _ in 0..k.min(inserts_left) {
+            inserts_left -= 1;
+            let (m, cid) = new_member(&mut h, &p, nested_pct);
+            ids.push(cid);
+            match m {
+                Member::F(f) => init_f.push(f),
+                Member::S(s) => init_s.push(s),
+            }
+        }
+        w(|w| w.st.group_inserts += ids.len() as u64);
+        h.unknown.extend(ids.iter().cloned());
+        ctor_desc = format!("from_iter({ids:?}, hint mode {init_mode})");
+    } else if ctor == 1 {
+        ctor_desc = "new()".into();
+    }
+    let built = std::panic::catch_unwind(std::panic::AssertUnwindSafe(|| match (streams, ctor) {
+        (false, 0) => FutureGroup::with_capacity(cap0),
+        (false, 1) => FutureGroup::new(),
+        (false, _) => FutureGroup::from_iter(HintIter { it: std::mem::take(&mut init_f).into_iter(), mode: init_mode }),
+        _ => FutureGroup::new(),
+    }));
+    let built_s = std::panic::catch_unwind(std::panic::AssertUnwindSafe(|| match (streams, ctor) {
+        (true, 0) => StreamGroup::with_capacity(cap0),
+        (true, 1) => StreamGroup::new(),
+        (true, _) => StreamGroup::from_iter(HintIter { it: std::mem::take(&mut init_s).into_iter(), mode: init_mode }),
+        _ => StreamGroup::new(),
+    }));
+    let (fgroup, sgroup) = match (built, built_s) {
+        (Ok(f), Ok(s)) => (f, s),
+        (a, b) => {
+            let m = a.err().or(b.err()).map(|pn| panic_msg(&pn)).unwrap_or_default();
+            h.viol(format!("constructing the group ({ctor_desc}) panicked: {m}"));
+            (FutureGroup::new(), StreamGroup::new())
+        }
+    };
     let mut g = match (streams, keyed) {
-        (false, true) => G::FK(Box::pin(FutureGroup::with_capacity(cap0).keyed())),
-        (false, false) => G::FP(Box::pin(FutureGroup::with_capacity(cap0))),
-        (true, true) => G::SK(Box::pin(StreamGroup::with_capacity(cap0).keyed())),
-        (true, false) => G::SP(Box::pin(StreamGroup::with_capacity(cap0))),
+        (false, true) => G::FK(Box::pin(fgroup.keyed())),
+        (false, false) => G::FP(Box::pin(fgroup)),
+        (true, true) => G::SK(Box::pin(sgroup.keyed())),
+        (true, false) => G::SP(Box::pin(sgroup)),
     };
     w(|w| w.phase = Phase::Idle);
-    let mut h = Hist { streams, keyed, live: BTreeMap::new(), unknown: vec![], all_keys: vec![], ever_used: BTreeSet::new(), slot_ids: BTreeMap::new(), prop: prop_s, next_idx: 0 };
     let mut out = ExecOut { key: format!("{}/{}", if streams { "stream_group" } else { "future_group" }, if keyed { "keyed" } else { "plain" }), ..Default::default() };
     let mut runnable = true;
-    let mut inserts_left = 2 + w(|w| w.below(if thorough { 10 } else { 8 }));
     let max_ops = 40 + w(|w| w.below(if thorough { 80 } else { 30 }));
     let mut ops = 0usize;
     let mut steps = 0usize;
@@ -225,9 +291,9 @@ pub fn run(prop: &str, thorough: bool, case_seed: u64, sub: u64) -> ExecOut {
     let mut prev_waker: Option<(usize, Waker)> = None;
     let mut panicked = false;
     let mut saw_none = false;
-    let mut last_cap = cap0;
+    let mut last_cap = g.len_cap_empty().1;
     let mut draining = false;
-    let mut oplog: Vec<String> = vec![format!("with_capacity({cap0}){}", if keyed { ".keyed()" } else { "" })];
+    let mut oplog: Vec<String> = vec![format!("{ctor_desc}{}", if keyed { ".keyed()" } else { "" })];
     loop {
         steps += 1;
         PROGRESS.fetch_add(1, std::sync::atomic::Ordering::Relaxed);
@@ -482,7 +548,8 @@ pub fn run(prop: &str, thorough: bool, case_seed: u64, sub: u64) -> ExecOut {
                     w(|w| w.ev(Ev::Op(format!("extend({ids:?})"))));
                     oplog.push(format!("extend({ids:?})"));
                     let futs: Vec<BF> = batch.into_iter().map(|(m, _)| match m { Member::F(f) => f, Member::S(_) => unreachable!() }).collect();
-                    let r = std::panic::catch_unwind(std::panic::AssertUnwindSafe(|| g.fg().unwrap().extend(futs)));
+                    let mode = w(|w| w.below(4) as u8);
+                    let r = std::panic::catch_unwind(std::panic::AssertUnwindSafe(|| g.fg().unwrap().extend(HintIter { it: futs.into_iter(), mode })));
                     if let Err(pn) = r {
                         h.viol(format!("extend panicked: {}", panic_msg(&pn)));
                         panicked = true;
